@@ -240,6 +240,9 @@ def run(prop, tier, seed):
     out = []
     if prop == 'C07':
         out += cluster_lemmas(seed)
+    if prop == 'C19':
+        from . import simple
+        out += simple.lemmas(seed)
     if prop == 'C06':
         out.append(consume_before_await('async_manager', 'AsyncManager', 'trigger_callback'))
     if prop == 'C09':
